@@ -110,6 +110,7 @@ type Trans struct {
 	verAlloc  map[string]string // heap array version -> allocation counter when the version was created
 	baseAlloc map[string]string
 	lastAlloc string
+	sealedCache map[string][]types.Type
 }
 
 func (t *Trans) noteVersion(c string, alloc string) {
@@ -323,9 +324,62 @@ func (t *Trans) typeFactsA(alloc string, v string, tp types.Type) string {
 	case *types.Slice:
 		return fmt.Sprintf("(and (<= 0 (s_base %s)) (<= (s_base %s) %s) (<= 0 (s_off %s)) (<= 0 (s_len %s)) (<= (s_len %s) (s_cap %s)) (<= (s_cap %s) 4611686018427387904) (=> (= (s_base %s) 0) (= %s nil_slice)))", v, v, st.alloc, v, v, v, v, v, v, v)
 	case *types.Interface:
-		return fmt.Sprintf("(and (<= 0 (i_tag %s)) (=> (= (i_tag %s) 0) (= %s nil_iface)))", v, v, v)
+		base := fmt.Sprintf("(and (<= 0 (i_tag %s)) (=> (= (i_tag %s) 0) (= %s nil_iface)))", v, v, v)
+		if impls := t.sealedImplementers(tp); len(impls) > 0 {
+			// sealed interface (unexported marker method, e.g. a protobuf oneof): the dynamic type is one of the
+			// implementers declared in its package, and generated oneof wrappers are never typed nil pointers
+			alts := []string{fmt.Sprintf("(= (i_tag %s) 0)", v)}
+			for _, it := range impls {
+				alts = append(alts, fmt.Sprintf("(= (i_tag %s) %s)", v, t.B.typeID(it)))
+			}
+			base = and(base, or(alts...), fmt.Sprintf("(=> (not (= (i_tag %s) 0)) (not (= (i_val %s) 0)))", v, v))
+			t.trust("sealed interfaces (protobuf oneof) hold only their declared wrapper types, never typed nil pointers")
+		}
+		return base
 	}
 	return "true"
+}
+
+// sealedImplementers lists the pointer types implementing a sealed interface (one with an unexported method), or nil.
+func (t *Trans) sealedImplementers(tp types.Type) []types.Type {
+	named, ok := tp.(*types.Named)
+	if !ok {
+		return nil
+	}
+	it, ok := named.Underlying().(*types.Interface)
+	if !ok || it.NumMethods() == 0 {
+		return nil
+	}
+	sealed := false
+	for i := 0; i < it.NumMethods(); i++ {
+		if !it.Method(i).Exported() {
+			sealed = true
+		}
+	}
+	if !sealed || named.Obj().Pkg() == nil || !strings.HasPrefix(named.Obj().Name(), "is") {
+		return nil
+	}
+	if t.sealedCache == nil {
+		t.sealedCache = map[string][]types.Type{}
+	}
+	key := types.TypeString(tp, nil)
+	if r, ok := t.sealedCache[key]; ok {
+		return r
+	}
+	var out []types.Type
+	scope := named.Obj().Pkg().Scope()
+	for _, n := range scope.Names() {
+		tn, ok := scope.Lookup(n).(*types.TypeName)
+		if !ok {
+			continue
+		}
+		pt := types.NewPointer(tn.Type())
+		if types.Implements(pt, it) {
+			out = append(out, pt)
+		}
+	}
+	t.sealedCache[key] = out
+	return out
 }
 
 // ---------------------------------------------------------------------------
